@@ -229,6 +229,17 @@ func converterFlowQ(d *declInfo, src types.Object, dstOwners map[string]bool, qu
 		}
 		return true
 	})
+	if flowDepth <= 2 {
+		flowDepth++
+		for _, hc := range helperCallsPassing(d, src) {
+			for k, v := range converterFlowQ(hc.d, hc.param, dstOwners, qualified) {
+				for f := range v {
+					rel.add(k, f)
+				}
+			}
+		}
+		flowDepth--
+	}
 	return rel
 }
 
@@ -437,6 +448,66 @@ func readerFlow(d *declInfo, src types.Object, owners map[string]bool, sub map[s
 		}
 		return true
 	})
+	// helpers that receive the whole source value (and fill the destination they are given):
+	// their flow is part of this function's flow
+	for _, hc := range helperCallsPassing(d, src) {
+		for k, v := range readerFlowDepth(hc.d, hc.param, owners, sub) {
+			for f := range v {
+				out.add(k, f)
+			}
+		}
+	}
+	return out
+}
+
+type helperCall struct {
+	d     *declInfo
+	param types.Object
+}
+
+var flowDepth int
+
+func readerFlowDepth(d *declInfo, src types.Object, owners map[string]bool, sub map[string]string) flowRel {
+	if flowDepth > 2 {
+		return flowRel{}
+	}
+	flowDepth++
+	defer func() { flowDepth-- }()
+	return readerFlow(d, src, owners, sub)
+}
+
+// helperCallsPassing lists the module functions d calls with the bare variable src as an argument,
+// with the parameter that receives it.
+func helperCallsPassing(d *declInfo, src types.Object) []helperCall {
+	var out []helperCall
+	if theProgram == nil || src == nil {
+		return nil
+	}
+	for _, cs := range callsIn(d.pkg, d.fd.Body) {
+		if cs.callee.Pkg() == nil || !strings.HasPrefix(cs.callee.Pkg().Path(), modPath+"/") || cs.callee == d.obj {
+			continue
+		}
+		for i, a := range cs.call.Args {
+			id, ok := a.(*ast.Ident)
+			if !ok || objOf(d.pkg, id) != src {
+				continue
+			}
+			fd, pk := theProgram.FuncDecl(objName(cs.callee))
+			if fd == nil || fd.Body == nil || fd.Type.Params == nil {
+				continue
+			}
+			k := 0
+			for _, fl := range fd.Type.Params.List {
+				for _, nm := range fl.Names {
+					if k == i {
+						obj, _ := pk.TypesInfo.Defs[fd.Name].(*types.Func)
+						out = append(out, helperCall{&declInfo{fd: fd, pkg: pk, obj: obj, name: objName(cs.callee)}, pk.TypesInfo.Defs[nm]})
+					}
+					k++
+				}
+			}
+		}
+	}
 	return out
 }
 
